@@ -27,7 +27,9 @@ def base_decls(tier, with_H=True, quick_reprs=None, renames=True, f3_reprs=None)
         out += family_D("i8", 7, "zero", renames=renames) + family_D("u8", 6, "top", renames=renames) + family_D("i64", 6, "bottom", renames=renames)
     else:
         for r in ALL_REPRS:
-            out += family_D(r, 8, "zero", renames=renames) + family_D(r, 6, "top", renames=renames) + family_D(r, 6, "bottom", renames=renames)
+            out += family_D(r, 8 if r in ("i8", "u8", "i64") else 7, "zero", renames=renames)
+            if r in ("i8", "u8", "i64", "u128", "usize"):
+                out += family_D(r, 6, "top", renames=renames) + family_D(r, 6, "bottom", renames=renames)
         for r in ("i32", "u32", "i64", "u64", "i128", "u128", "isize", "usize"):
             out += family_P(r)
         for r in ALL_REPRS:
